@@ -13,7 +13,7 @@ from hypothesis import strategies as st
 from pbt import docs, jsongen as jg, refserver as ref, serverharness as sh, stdreg
 from pbt.runner import Check, Disc, Outcome
 
-from checks.c01 import BATCH_LIMITS, batch_limit, doc_classes
+from checks.c01 import BATCH_LIMITS, CODEC_CHOICES, batch_limit, doc_classes
 
 MAPPING_CLAUSES = ('nothing-vs-response', 'expected-array', 'response-count', 'expected-single-object', 'id',
                    'expected-success', 'expected-error', 'result', 'response-not-object')
@@ -80,8 +80,8 @@ class C02(Check):
             gen = docs.document(reg, kinds=['single'] * 2 + ['batch'] * 8,
                                 flavours=['valid'] * 12 + ['unknown-method'] * 2 + ['deviant', 'non-object'])
             return st.builds(
-                lambda text, beh, mbs: {'dispatcher': kind, 'max_batch_size': batch_limit(text, mbs), 'behaviours': beh, 'text': text},
-                gen, stdreg.behaviours(), st.sampled_from(BATCH_LIMITS + ['-1', '0', '+1']),
+                lambda text, beh, mbs, codec: {'dispatcher': kind, 'max_batch_size': batch_limit(text, mbs), 'behaviours': beh, 'text': text, 'codec': codec},
+                gen, stdreg.behaviours(), st.sampled_from(BATCH_LIMITS + ['-1', '0', '+1']), st.sampled_from(CODEC_CHOICES),
             )
         return st.one_of(for_kind('sync'), for_kind('async'))
 
@@ -138,7 +138,7 @@ class C02(Check):
             spec = {**spec, 'yield_once': True}   # coroutine methods really suspend once (execution log compared as a multiset)
         obs = sh.observe(spec)
         registry, behaviours = sh.registry_of(spec), sh.behaviours_of(spec)
-        exp = ref.expect(obs.request_text, registry, behaviours, spec.get('max_batch_size'))
+        exp = ref.expect(obs.request_text, registry, behaviours, spec.get('max_batch_size'), spec.get('codec', 'default'))
         discs: List[Disc] = []
         if obs.raised is not None:
             discs.append(Disc(f"C02/dispatch-raised/{type(obs.raised).__name__}", f"{obs.raised!r} for {obs.request_text[:300]!r}"))
@@ -153,11 +153,18 @@ class C02(Check):
 
         # metamorphic: accepted batch == each element alone
         evaluations = 1
-        if exp.accepted_batch and obs.raised is None and not obs.parse_error:
+        plain_elements = exp.parsed
+        if spec.get('codec', 'default') != 'default' and exp.accepted_batch:
+            # the elements are re-rendered from the plainly parsed text (floats, not the Decimals the model computed with);
+            # a literal beyond the double range has no such rendering, the relation is then not checked
+            plain_elements = json.loads(obs.request_text)
+            if 'Infinity' in json.dumps(plain_elements):
+                plain_elements = None
+        if exp.accepted_batch and obs.raised is None and not obs.parse_error and plain_elements is not None:
             classes.append('metamorphic/checked')
             singles = []
             log_total = 0
-            for el in exp.parsed:
+            for el in plain_elements:
                 o = sh.observe(spec, text=json.dumps(el))
                 evaluations += 1
                 log_total += len(o.log)
